@@ -62,6 +62,14 @@ Fixpoint kfoldmap {C K Y : Type} (f : C -> K -> C * Y) (c : C) (l : list K) : C 
 (* jr.split(key, n) for a symbolic n *)
 Definition ksplit_keys (k : kpath) (n : nat) : list kpath := map (fun i => ks k n i) (seq 0 n).
 
+(* x.reshape(-1, B) of a 1-D array: consecutive chunks of B entries (only full chunks exist: the caller trims first) *)
+Fixpoint kchunks {A} (B n : nat) (l : list A) : list (list A) :=
+  match n with
+  | O => []
+  | S n' => firstn B l :: kchunks B n' (skipn B l)
+  end.
+Definition kreshape {A} (B : nat) (l : list A) : list (list A) := kchunks B (length l / B) l.
+
 Definition ksum (l : list R) : R := fold_right Rplus 0%R l.
 Definition kmean (l : list R) : R := (ksum l / INR (length l))%R.
 
